@@ -272,6 +272,9 @@ def c05_struct():
     out.append(f"{{ {pre} for (i = 5; i < 3; i++) {{ RxV = 77; }} RyV = i; }}")
     out.append(f"{{ {pre} int x; x = 3; {{ int z = x + n; RxV = z; }} {{ ; ; }} RyV = x; }}")
     out.append(f"{{ {pre} RxV = RyV = n; }}")
+    out.append(f"{{ {pre} RxV = RyV = RxV + 1; }}")
+    out.append(f"{{ {pre} n = RxV = n + RxV; RyV = n; }}")
+    out.append(f"{{ {pre} RxV = n = n * 2; RyV = n + RxV; }}")
     out.append(f"{{ {pre} int q; q = RxV = RsV + 1; RyV = q; }}")
     return out
 
@@ -366,6 +369,20 @@ def c06(tier):
         f"{{ {C06_PRE} RyV = (n > 0) ? ((m > 0) ? ({{ set_usr_field(bundle, HEX_REG_FIELD_USR_OVF, 1); 7; }}) : 2) : 3; {C06_POST} }}",
         f"{{ {C06_PRE} RyV = (n > 0) ? 3 : ((m > 0) ? 2 : ({{ RxV = 9; 7; }})); {C06_POST} }}",
         f"{{ {C06_PRE} trap(0, 7); {C06_POST} }}",
+        # both arms are statement-expressions / calls; several hybrids in one value-unused statement
+        f"{{ {C06_PRE} RyV = (RuV > 0) ? ({{ n = n + 1; n; }}) : ({{ m = m + 2; m; }}); {C06_POST} }}",
+        f"{{ {C06_PRE} RyV = (RuV > 0) ? ({{ RxV = RxV + 1; 3; }}) : ({{ RxV = RxV + 2; 4; }}); {C06_POST} }}",
+        f"{{ {C06_PRE} RyV = (RuV > 0) ? ({{ set_usr_field(bundle, HEX_REG_FIELD_USR_OVF, 1); n; }}) : ({{ m = 5; m; }}); {C06_POST} }}",
+        f"{{ {C06_PRE} RyV = (RuV > 0) ? clz32(n) : clo32(m); {C06_POST} }}",
+        f"{{ {C06_PRE} RyV = (RuV > 0) ? ({{ n = n + 1; n; }}) : clo32(m); {C06_POST} }}",
+        f"{{ {C06_PRE} n++ + m++; {C06_POST} }}",
+        f"{{ {C06_PRE} clz32(n) + clo32(m); {C06_POST} }}",
+        f"{{ {C06_PRE} n++ + clz32(m) + m--; {C06_POST} }}",
+        f"{{ {C06_PRE} ({{ n = n + 1; n; }}) + m++; {C06_POST} }}",
+        f"{{ {C06_PRE} n++, m++; {C06_POST} }}",
+        f"{{ {C06_PRE} if (RuV) {{ n++ + m++; }} {C06_POST} }}",
+        f"{{ {C06_PRE} for (i = 0; i < 2; i++) {{ n++ + m--; }} {C06_POST} }}",
+        f"{{ {C06_PRE} n++; m++; n--; {C06_POST} }}",
         f"{{ {C06_PRE} n++; n++; m--; {C06_POST} }}",
         f"{{ {C06_PRE} RyV = n++; RyV = RyV + n++; {C06_POST} }}",
     ]
@@ -546,6 +563,11 @@ def c09(tier):
     for a, b in itertools.product(["8", "7", "9", "0", "1", "6U", "100LL", "0x10"], ["2", "3", "0", "1", "4U", "7LL"]):
         out.append(f"{{ RddV = {a} / {b}; }}")
         out.append(f"{{ RddV = {a} % {b}; }}")
+    for a, b in [("0x7fffffffffffffffLL", "1"), ("9007199254740993LL", "1"), ("0xffffffffffffffffULL", "3"), ("-7", "2"), ("7", "-2"),
+                 ("-9007199254740993LL", "1"), ("0x8000000000000000ULL", "2"), ("4611686018427387905LL", "1LL"), ("1", "3"), ("-1", "3"),
+                 ("0x7fffffff", "-1"), ("100", "7")]:
+        out.append(f"{{ RddV = {a} / {b}; }}")
+        out.append(f"{{ RddV = ({a} / {b}) + RssV; }}")
     # dead operands that live code still uses
     pre = "int32_t n = RsV; uint8_t q = RtV;"
     for dead, live in itertools.product(["n", "q", "RtV", "RuV", "clz32(n)", "({ n = n + 1; n; })", "n++", "(n + q)", "siV"],
@@ -582,6 +604,8 @@ C15_STMTS = [
     "for (i = 0; i < 2; i++, j++) { RxV = j; }", "RxV = clz32((n, 3));", "RxV = n ? (RyV = 1, 2) : 3;",
     "int q = 1, r = 2;", "int arr[2];", "int *ptr;", "typedef int t;", "static int z = 1;",
     "RxV = (int32_t){n};", "RxV = sizeof(int[2]);", "asm(\"nop\");", "RxV = n ?: 3;", "RxV = __builtin_clz(n);",
+    "RxV = RyV = n = 7;", "n = RxV = RyV = RtV;", "n++ + RxV++;", "clz32(n) + clo32(RxV);",
+    "n++ + clz32(n) + RxV--;", "RxV = 1; n++ + RxV++; RyV = n;",
     "if (n) break;", "if (n) { continue; }", "{ break; }", "RxV = \"str\";", "RxV = 'c';", "RxV = 1.5;", "RxV = 010;",
     "RxV = 1L;", "RxV = 1UL;", "RxV = n >>> 1;", "RxV = n <=> 1;", "RxV = (n, n);",
 ]
